@@ -95,7 +95,7 @@ class Action:
 
 class G:
     """One grammar IR node."""
-    __slots__ = ('kind', 'kids', 'a', 'name', 'list_all', 'actions', 'module', 'line', 'var', 'ws', 'skip_ws', 'uid')
+    __slots__ = ('kind', 'kids', 'a', 'name', 'list_all', 'actions', 'module', 'line', 'var', 'ws', 'skip_ws', 'uid', 'shares_actions_with')
 
     def __init__(self, kind: str, kids: Optional[List['G']] = None, a: Optional[Dict[str, Any]] = None,
                  module: str = '', line: int = 0, ws: str = ' \t\r\n'):
@@ -111,6 +111,7 @@ class G:
         self.ws = ws
         self.skip_ws = True
         self.uid = next(_uid)
+        self.shares_actions_with: Optional['G'] = None
 
     # pyparsing copy semantics
     def copy(self) -> 'G':
@@ -372,6 +373,15 @@ class GrammarEval:
                             g.skip_ws = False
                         self._pp_elements[ename] = g
                     return self._pp_elements[ename]
+                if base.path in (('common',), ('pyparsing_common',)) and e.attr == 'identifier':
+                    # pyparsing_common.identifier = Word(identchars, identbodychars): Latin-1 identifier characters, no digit in first position
+                    if 'common.identifier' not in self._pp_elements:
+                        init = frozenset(chr(i) for i in range(256) if chr(i).isidentifier())
+                        body = frozenset(chr(i) for i in range(256) if ('a' + chr(i)).isidentifier())
+                        g = G('word', None, {'init': init, 'body': body, 'min': 1, 'max': None, 'as_keyword': False}, 'pyparsing', 0, ' \t\r\n')
+                        g.var = 'pp.common.identifier'
+                        self._pp_elements['common.identifier'] = g
+                    return self._pp_elements['common.identifier']
                 return PPRef(base.path + (e.attr,))
             if isinstance(base, G):
                 return GMethod(base, e.attr)
@@ -576,6 +586,18 @@ class GrammarEval:
             return self.method(f.recv, f.name, e, env, mod, cfg)
         if isinstance(f, PPRef):
             return self.pp_call(f.path, e, env, mod, cfg)
+        if isinstance(f, Opaque) and f.what in ('copy.copy', 'copy.deepcopy') and len(e.args) >= 1:
+            # the standard library's copy() of a parser element is SHALLOW: the copy keeps the very list of parse actions of the original, so
+            # add_parse_action on the copy (an in-place extension of that list) also lands on the original.  pyparsing's own .copy() gives the copy
+            # a list of its own; deepcopy copies everything.
+            src = self.ev(e.args[0], env, mod, cfg)
+            if isinstance(src, G):
+                c = src.copy()
+                self.created.append(c)
+                if f.what == 'copy.copy':
+                    c.shares_actions_with = src
+                return c
+            return Opaque(f'call {f.what}')
         if isinstance(f, Opaque):
             for a in e.args:
                 self.ev(a, env, mod, cfg) if not isinstance(a, ast.Starred) else None
@@ -655,8 +677,12 @@ class GrammarEval:
             acts = [self.to_action(self.ev(a, env, mod, cfg), a, m) for a in e.args]
             if name in ('set_parse_action', 'setParseAction'):
                 g.actions = acts
+                g.shares_actions_with = None
             else:
                 g.actions = g.actions + acts
+                orig = getattr(g, 'shares_actions_with', None)
+                if orig is not None:
+                    orig.actions = orig.actions + acts
             return g
         if name in ('set_results_name', 'setResultsName'):
             kw = self.kw(e, env, mod, cfg, ['name', 'list_all_matches'], {'listAllMatches': 'list_all_matches'})
